@@ -79,8 +79,13 @@ def r_identity_is_canonical_path(r, prog):
         for a in field_accesses(prog, 'slicec::utils::file_util::FilePath', acc, crates=('slicec',)):
             if a['fn'] is eq[0]:
                 reads.add(acc)
-    if reads == {'canonicalized_path'}:
-        r.ok('FilePath equality compares canonicalized_path only')
+    shown = vexpr(eq[0], {'cp': {'l': 0}})
+    exact = re.match(r'^eq\(arg1\.canonicalized_path,arg2\.canonicalized_path\)$|^eq\(arg2\.canonicalized_path,arg1\.canonicalized_path\)$', shown) and \
+        all(re.search(r'(PathBuf|Path|OsString|OsStr) as core::cmp::PartialEq', c.resolved or '') for c in eq[0].calls() if c.name() == 'eq')
+    if reads == {'canonicalized_path'} and not exact:
+        r.finding('identity-not-exact', eq[0].span, 'FilePath equality is %s: two files are the same file exactly when their canonical paths are equal (a looser comparison - letter case, prefixes - merges different files of a case-sensitive file system)' % shown[:120])
+    elif reads == {'canonicalized_path'}:
+        r.ok('FilePath equality is equality of canonicalized_path')
     else:
         r.finding('identity-fields', eq[0].span, 'FilePath equality reads %s (expected canonicalized_path only)' % sorted(reads))
     tc = prog.fn(FU + 'FilePath::try_create')
@@ -309,7 +314,16 @@ def r_directory_walk_once(r, prog):
     tc = [c for c in top.calls() if c.name() == 'find_slice_files_in_path' and not top.blocks[c.bb].get('cleanup')]
     mid = prog.fn('slicec::utils::file_util::find_slice_files_in_path')
     mc = [c for c in mid.calls() if c.name() == 'find_slice_files_in_directory' and not mid.blocks[c.bb].get('cleanup')]
-    if len(tc) == 1 and vexpr(top, tc[0].args[1]) == 'new()' and len(mc) == 1 and vexpr(mid, mc[0].args[1]) == 'arg2' and all(vexpr(f, c.args[1]) == 'arg2' for c in rec):
+    # created inside the loop over the listed paths (one set per path): a set that lives across the listed paths makes the second of
+    # `-R dir -R dir` find nothing, and the DuplicateFile warnings for files listed twice are lost
+    fresh = False
+    if len(tc) == 1:
+        from helpers import base_local
+        bl = base_local(top, tc[0].args[1])
+        news = [c for c in top.calls() if c.name() == 'new' and c.dest is not None and c.dest.get('l') == bl and not top.blocks[c.bb].get('cleanup')]
+        wl = loop_of(top, tc[0].bb)
+        fresh = len(news) == 1 and wl is not None and news[0].bb in wl[1] and top.dominates(news[0].bb, tc[0].bb)
+    if len(tc) == 1 and fresh and vexpr(top, tc[0].args[1]) == 'new()' and len(mc) == 1 and vexpr(mid, mc[0].args[1]) == 'arg2' and all(vexpr(f, c.args[1]) == 'arg2' for c in rec):
         r.ok('the set of walked directories starts empty for every listed path and is the same set all the way down')
     else:
         r.finding('walked-set-not-threaded', top.span, 'the set of walked directories is not created per listed path and passed down unchanged')
